@@ -393,6 +393,9 @@ func genColor(r *simrt.Rand) [4]uint8 {
 
 func genDrawing(r *simrt.Rand, l latticeCfg, nfonts int) *Drawing {
 	d := &Drawing{W: 60, H: 40}
+	if r.Bool(0.25) {
+		d.Post = 1 + r.Intn(4)
+	}
 	for i, n := 0, 1+r.Intn(4); i < n; i++ {
 		it := DrawItem{Fill: genColor(r), Stroke: genColor(r), Z: r.Intn(3) - 1, X: float64(r.Intn(20)), Y: float64(r.Intn(20))}
 		if r.Bool(0.3) {
